@@ -103,6 +103,7 @@ def chains_for(ir_and_seed):
 
 def main(tier, write_baseline=False):
     run = Run("C03", tier, "other", checker_cmd="lean /verif/lean/C03.lean  +  " + common.checker_cmd("C03", tier))
+    run.confirm_abstracted = ('_infer_default',)  # refutations of these exact contracts count only with an input that fails on the real code (report.Run.violation)
     M.RAISE_CTX.update(prop="C03", write=bool(write_baseline))
     run.trusted_base.update(["Lean 4.33 kernel (lean/C03.lean, no Mathlib)", "the Lean statement models a hop as a total function IR -> IR and pi as a projection; H1/H2 are only checked within the bound"])
     lean_obligations(run)
